@@ -4,7 +4,7 @@
 use std::{env, fs, thread};
 //#![feature(getpid)]
 //use std::process;
-use std::io::{BufRead, BufReader};
+use std::io::{BufRead, BufReader, Read};
 use std::mem;
 use std::net::{TcpListener, TcpStream};
 #[cfg(unix)]
@@ -577,10 +577,22 @@ pub fn listen<S: ?Sized + AsRef<str>, H: crate::ConnectionHandler + Send + Sync 
             let (r, mut w) = stream.split().unwrap();
             let mut br = BufReader::new(r);
             let mut iface: Option<String> = None;
+            let mut unread: Vec<u8> = Vec::new();
             loop {
-                match handler.handle(&mut br, &mut w, iface.clone()) {
-                    Ok((_, i)) => {
+                let res = {
+                    // hand the unprocessed tail of the previous call back in front of the stream
+                    let mut input = unread.as_slice().chain(&mut br);
+                    handler.handle(&mut input, &mut w, iface.clone())
+                };
+                match res {
+                    Ok((tail, i)) => {
+                        let upgrading = iface.is_none() && i.is_some();
                         iface = i;
+                        unread = tail;
+                        if upgrading && !unread.is_empty() {
+                            // bytes received behind the upgrade request belong to the upgraded handler
+                            continue;
+                        }
                         match br.fill_buf() {
                             Err(_) => break,
                             Ok([]) => break,
